@@ -177,6 +177,16 @@ pub struct RunOutput {
     pub hung: bool,
 }
 
+/// Index of the run being generated within its batch (u64::MAX outside a batch). Scenarios with an
+/// enumerated arm map low indices to the i-th element of a small exhaustive space instead of drawing.
+static RUN_INDEX: std::sync::atomic::AtomicU64 = std::sync::atomic::AtomicU64::new(u64::MAX);
+pub fn set_run_index(i: u64) {
+    RUN_INDEX.store(i, Ordering::SeqCst);
+}
+pub fn run_index() -> u64 {
+    RUN_INDEX.load(Ordering::SeqCst)
+}
+
 pub trait Scenario: Sync + Send + 'static {
     type Case: Serialize + DeserializeOwned + Clone + Send + 'static;
 
